@@ -1,8 +1,374 @@
-import VelaVerif.Model.Config
-import VelaVerif.Spec.Config
-namespace VelaVerif.Props.C18
-open VelaVerif.Config
+import VelaVerif.Lemmas.Config
+/-!
+# C18 — system configuration and memory mode resolve as documented
 
-theorem placeholder : (1 : Nat) = 1 := rfl
+Property theorems only.  Model: `Model/Config.lean` (transcription of `_read_config`,
+`_get_vela_config`, `ArchitectureFeatures.__init__`, the argument handling of `vela.main`);
+documented rules: `Spec/Config.lean`; helpers: `Lemmas/Config.lean`.
+The enum names, parser defaults, live default architectures, probed legal areas, the bundled
+`Arm/vela.ini` and the section names OPTIONS.md gives for `internal-default` are regenerated
+(`Gen/Config.lean`), so every `decide` below is re-checked against the live source and documents.
+-/
+namespace VelaVerif.Props.C18
+open VelaVerif VelaVerif.Config
+open VelaVerif.Spec.Config (chain nearest specArch specCheck Verdict)
+
+/-! ## 1. Inheritance: a section overrides what it inherits, transitively -/
+
+/-- **inherit_child_overrides.**  For every acyclic inheritance chain `s = s₀ → s₁ → … → sₙ` of any
+    depth (each `sᵢ` exists and names `sᵢ₊₁ ≠ sᵢ` in `inherit`, `sₙ` has no `inherit`) and any fuel that
+    covers the chain, the lookup of `key` returns the value of the *nearest* section defining it
+    (`nearestIn` scans child first), or "not defined" if none does — although the code reads the
+    parent first and overwrites. -/
+theorem inherit_child_overrides {ini : Ini} {s : String} {ch : List (String × Section)} (key : String)
+    (h : IsChain ini s ch) (fuel : Nat) (hf : ch.length ≤ fuel) :
+    readConfig ini fuel s key = .ok (nearestIn key ch) :=
+  readConfig_of_chain key h fuel hf
+
+/-- what "nearest" means: the first section of the chain that defines the key wins, whatever the
+    sections behind it say -/
+theorem nearest_is_first_definer (key v : String) (pre post : List (String × Section)) (t : String) (o : Section)
+    (hpre : ∀ p ∈ pre, p.2.lookup key = none) (ho : o.lookup key = some v) :
+    nearestIn key (pre ++ (t, o) :: post) = some v := by
+  induction pre with
+  | nil => simp [nearestIn, ho]
+  | cons p ps ih =>
+    have hp : p.2.lookup key = none := hpre p (by simp)
+    have := ih (fun q hq => hpre q (by simp [hq]))
+    simp only [nearestIn, List.cons_append, List.findSome?, hp] at this ⊢
+    exact this
+
+theorem nearest_none_iff_undefined (key : String) (ch : List (String × Section)) :
+    nearestIn key ch = none ↔ ∀ p ∈ ch, p.2.lookup key = none := by
+  simp [nearestIn, List.findSome?_eq_none_iff]
+
+/-- **readConfig_terminates.**  On an acyclic chain the fuel the model uses (`number of sections + 1`)
+    is sufficient: the fuel never changes a result. -/
+theorem readConfig_terminates {ini : Ini} {s : String} {ch : List (String × Section)} (key : String)
+    (h : IsChain ini s ch) : readConfig ini (fuelFor ini) s key = .ok (nearestIn key ch) :=
+  readConfig_of_chain key h _ (by have := h.length_le; unfold fuelFor; omega)
+
+/-- a chain that ends is acyclic -/
+theorem chain_is_acyclic {ini : Ini} {s : String} {ch : List (String × Section)} (h : IsChain ini s ch) :
+    (ch.map Prod.fst).Nodup := h.names_nodup
+
+/-- The code's lookup and the documented rule (`Spec.chain` + `Spec.nearest`) agree for *every* file,
+    section, key and fuel — also on when to reject (unknown section, self reference, cycle). -/
+theorem readConfig_is_documented_lookup (ini : Ini) (key : String) (fuel : Nat) (s : String) :
+    (readConfig ini fuel s key).toOption = (chain ini fuel s).map (nearest key) :=
+  readConfig_eq_chain ini key fuel s
+
+/-- non-vacuity: a chain of depth 3 in which child, parent and grandparent all define `k` -/
+def exIni : Ini :=
+  [ ("Memory_Mode.A", [("inherit", "Memory_Mode.B"), ("k", "child")]),
+    ("Memory_Mode.B", [("k", "parent"), ("inherit", "Memory_Mode.C"), ("j", "parent-j")]),
+    ("Memory_Mode.C", [("k", "grandparent"), ("j", "grandparent-j"), ("i", "grandparent-i")]) ]
+
+example : IsChain exIni "Memory_Mode.A"
+    [ ("Memory_Mode.A", [("inherit", "Memory_Mode.B"), ("k", "child")]),
+      ("Memory_Mode.B", [("k", "parent"), ("inherit", "Memory_Mode.C"), ("j", "parent-j")]),
+      ("Memory_Mode.C", [("k", "grandparent"), ("j", "grandparent-j"), ("i", "grandparent-i")]) ] :=
+  .step (by decide) (by decide) (by decide) (.step (by decide) (by decide) (by decide) (.last (by decide) (by decide)))
+
+example : readConfig exIni (fuelFor exIni) "Memory_Mode.A" "k" = .ok (some "child") := by decide
+example : readConfig exIni (fuelFor exIni) "Memory_Mode.A" "j" = .ok (some "parent-j") := by decide
+example : readConfig exIni (fuelFor exIni) "Memory_Mode.A" "i" = .ok (some "grandparent-i") := by decide
+example : readConfig exIni (fuelFor exIni) "Memory_Mode.A" "h" = .ok none := by decide
+
+/-! ### cycles (observation; the property only lists self-inheritance) -/
+
+/-- **readConfig_cycle_partial.**  Full statement: "for an `inherit` cycle of length ≥ 2 the Python
+    recursion does not terminate".  Proved about the model: from any section of a set closed under
+    `inherit` (every member's parent is another member) the lookup exhausts *every* amount of fuel, so no
+    fuel bound exists; what is missing for the full statement is Python's own semantics (the real run ends
+    in `RecursionError`, observed by the correspondence run as `err:recursion`). -/
+theorem readConfig_cycle_partial (ini : Ini) (key : String) (S : String → Prop)
+    (hS : ∀ s, S s → ∃ o p, ini.lookup s = some o ∧ o.lookup "inherit" = some p ∧ p ≠ s ∧ S p)
+    (s : String) (hs : S s) : ¬ ∃ fuel r, readConfig ini fuel s key = .ok r := by
+  rintro ⟨fuel, r, h⟩
+  rw [readConfig_closed_set ini key S hS fuel s hs] at h
+  cases h
+
+def exCycle : Ini :=
+  [ ("System_Config.A", [("inherit", "System_Config.B"), ("core_clock", "1e9")]),
+    ("System_Config.B", [("inherit", "System_Config.A")]) ]
+
+/-- a two-section cycle: even a key the child defines itself is never delivered -/
+theorem two_cycle_never_resolves (fuel : Nat) :
+    readConfig exCycle fuel "System_Config.A" "core_clock" = .error .recursion := by
+  apply readConfig_closed_set exCycle "core_clock" (fun s => s = "System_Config.A" ∨ s = "System_Config.B")
+  · intro s hs
+    rcases hs with rfl | rfl
+    · exact ⟨[("inherit", "System_Config.B"), ("core_clock", "1e9")], "System_Config.B", by decide, by decide,
+        by decide, Or.inr rfl⟩
+    · exact ⟨[("inherit", "System_Config.A")], "System_Config.A", by decide, by decide, by decide, Or.inl rfl⟩
+  · exact Or.inl rfl
+
+/-! ## 2. Unspecified options take the documented defaults -/
+
+/-- **defaults_when_absent** (system configuration section): an option that no section of the chain
+    defines gets "1 or the equivalent": clock 1, `MemArea(1)` = Sram for both ports. -/
+theorem defaults_when_absent_sys {rd : Reader} {s : SysCfg} (h : sysFromFile rd = .ok s) :
+    (rd "core_clock" = .ok none → s.coreClock = Dy.one) ∧
+    (rd "axi0_port" = .ok none → s.axi0 = .sram) ∧
+    (rd "axi1_port" = .ok none → s.axi1 = .sram) := by
+  obtain ⟨rcc, ra0, ra1, t0, h1, h2, h3, h4, h5, h6, _, _⟩ := sysFromFile_ok h
+  refine ⟨fun hn => ?_, fun hn => ?_, fun hn => ?_⟩
+  · rw [hn] at h1; cases h1; simp [fieldOr] at h2; exact h2.symm
+  · rw [hn] at h3; cases h3; simp [fieldOr] at h4; exact h4.symm
+  · rw [hn] at h5; cases h5; simp [fieldOr] at h6; exact h6.symm
+
+/-- per-area options of an area selected by a port: scale 1, burst 1, latencies 0 when absent
+    (the arrays start as `np.ones`, `np.ones(int)`, `np.zeros`) -/
+theorem defaults_when_absent_area {rd : Reader} {t : Tab} {a : MemArea}
+    (h : readArea rd Tab.init a = .ok t)
+    (h1 : rd (a.key ++ "_clock_scale") = .ok none) (h2 : rd (a.key ++ "_burst_length") = .ok none)
+    (h3 : rd (a.key ++ "_read_latency") = .ok none) (h4 : rd (a.key ++ "_write_latency") = .ok none) :
+    t = Tab.init := by
+  obtain ⟨row, r1, r2, r3, r4, sc, bl, rl, wl, hg, e1, f1, e2, f2, e3, f3, e4, f4, ht⟩ := readArea_ok h
+  rw [h1] at e1; cases e1
+  rw [h2] at e2; cases e2
+  rw [h3] at e3; cases e3
+  rw [h4] at e4; cases e4
+  have hrow : row = Row.init := by cases a <;> simp_all [Tab.get?, Tab.init]
+  subst hrow
+  rw [intField_none _ (by decide)] at f2 f3 f4
+  simp only [fieldOr] at f1
+  cases f1; cases f2; cases f3; cases f4
+  subst ht
+  cases a <;> rfl
+
+/-- memory mode section: areas default to `MemPort(1)` = Axi0, the size to the maximum address -/
+theorem defaults_when_absent_mem {rd : Reader} {maxAddr : Nat} {m : MemCfg} (h : memFromFile rd maxAddr = .ok m) :
+    (rd "const_mem_area" = .ok none → m.constPort = .axi0) ∧
+    (rd "arena_mem_area" = .ok none → m.arenaPort = .axi0) ∧
+    (rd "cache_mem_area" = .ok none → m.cachePort = .axi0) ∧
+    (rd "arena_cache_size" = .ok none → m.size = maxAddr) := by
+  obtain ⟨rc, ra, rk, rs, h1, h2, h3, h4, h5, h6, h7, h8⟩ := memFromFile_ok h
+  refine ⟨fun hn => ?_, fun hn => ?_, fun hn => ?_, fun hn => ?_⟩
+  · rw [hn] at h1; cases h1; simp [fieldOr] at h2; exact h2.symm
+  · rw [hn] at h3; cases h3; simp [fieldOr] at h4; exact h4.symm
+  · rw [hn] at h5; cases h5; simp [fieldOr] at h6; exact h6.symm
+  · rw [hn] at h7; cases h7; simp [fieldOr] at h8; exact h8.symm
+
+/-- **defaults_when_absent** at the level of the resolved architecture: with a file that has both selected
+    sections, an accepted configuration has clock 1 when `core_clock` is nowhere in the chain, and —
+    without a command-line size — the maximum address when `arena_cache_size` is nowhere in the chain. -/
+theorem defaults_when_absent {inp : Input} {ini : Ini} {a : Arch} (h : getVelaConfig inp = .ok a)
+    (hini : inp.ini = some ini)
+    (hsys : ini.hasSection ("System_Config." ++ inp.systemConfig) = true)
+    (hmem : ini.hasSection ("Memory_Mode." ++ inp.memoryMode) = true) :
+    (readConfig ini (fuelFor ini) ("System_Config." ++ inp.systemConfig) "core_clock" = .ok none →
+      a.coreClock = Dy.one) ∧
+    (inp.cli = none →
+      readConfig ini (fuelFor ini) ("Memory_Mode." ++ inp.memoryMode) "arena_cache_size" = .ok none →
+      a.arenaCacheSize = inp.maxAddr) ∧
+    (readConfig ini (fuelFor ini) ("Memory_Mode." ++ inp.memoryMode) "arena_mem_area" = .ok none →
+      a.arenaPort = .axi0) ∧
+    (readConfig ini (fuelFor ini) ("Memory_Mode." ++ inp.memoryMode) "cache_mem_area" = .ok none →
+      a.cachePort = .axi0) := by
+  obtain ⟨s, m, hs, hm, hf⟩ := getVelaConfig_ok h
+  obtain ⟨_, _, _, _, _, hsz, _, _, _, hcc, hap, hkp⟩ := finalize_ok hf
+  simp only [sysStage, hini, hsys, if_true] at hs
+  simp only [memStage, hini, hmem, if_true] at hm
+  have ds := defaults_when_absent_sys hs
+  have dm := defaults_when_absent_mem hm
+  refine ⟨fun hn => ?_, fun hc hn => ?_, fun hn => ?_, fun hn => ?_⟩
+  · rw [hcc]; exact ds.1 hn
+  · rw [hsz, hc]; exact dm.2.2.2 hn
+  · rw [hap]; exact dm.2.1 hn
+  · rw [hkp]; exact dm.2.2.1 hn
+
+/-- the `internal-default` values (no file, nothing on the command line), Ethos-U65:
+    Client-Server system (1 GHz, Sram 1.0/32/32/32, Dram 0.75/128/500/250), Dedicated SRAM, 384 KiB -/
+theorem internal_default_u65 (maxAddr : Nat) (h : 393216 ≤ maxAddr) :
+    getVelaConfig { ini := none, isU65 := true, maxAddr := maxAddr, systemConfig := defaultName,
+                    memoryMode := defaultName, cli := none } =
+      .ok { coreClock := ⟨false, 1953125, 9⟩, axi0 := .sram, axi1 := .dram,
+            tab := { Tab.init with sram := ⟨Dy.one, 32, 32, 32⟩, dram := ⟨⟨false, 3, -2⟩, 128, 500, 250⟩ },
+            constPort := .axi1, arenaPort := .axi1, cachePort := .axi0, arenaCacheSize := 393216,
+            permanent := .dram, featureMap := .dram, fast := .sram } := by
+  rw [getVelaConfig_of_stages _ _ _ (sysStage_no_file _ rfl rfl) (memStage_no_file _ rfl rfl)]
+  exact finalize_default_u65 maxAddr h
+
+/-- Ethos-U55: High-End Embedded (500 MHz, Sram 1.0/32/32/32, OffChipFlash 0.125/128/64/64), Shared SRAM,
+    size = maximum address -/
+theorem internal_default_u55 (maxAddr : Nat) :
+    getVelaConfig { ini := none, isU65 := false, maxAddr := maxAddr, systemConfig := defaultName,
+                    memoryMode := defaultName, cli := none } =
+      .ok { coreClock := ⟨false, 1953125, 8⟩, axi0 := .sram, axi1 := .offChipFlash,
+            tab := { Tab.init with sram := ⟨Dy.one, 32, 32, 32⟩, offChipFlash := ⟨⟨false, 1, -3⟩, 128, 64, 64⟩ },
+            constPort := .axi1, arenaPort := .axi0, cachePort := .axi0, arenaCacheSize := maxAddr,
+            permanent := .offChipFlash, featureMap := .sram, fast := .sram } := by
+  rw [getVelaConfig_of_stages _ _ _ (sysStage_no_file _ rfl rfl) (memStage_no_file _ rfl rfl)]
+  exact finalize_default_u55 maxAddr
+
+/-! ## 3. A command-line arena cache size overrides the file -/
+
+/-- **cli_overrides_file.**  Whatever the files, the selections and the accelerator: if a size is given on
+    the command line and the configuration is accepted, the size used is the command line's. -/
+theorem cli_overrides_file (inp : Input) (v : Int) (a : Arch)
+    (h : getVelaConfig { inp with cli := some v } = .ok a) : a.arenaCacheSize = v := by
+  obtain ⟨s, m, _, _, hf⟩ := getVelaConfig_ok h
+  exact (finalize_ok hf).2.2.2.2.2.1
+
+/-- … and without one, it is the memory mode's (file value, section default or internal default) -/
+theorem file_size_without_cli (inp : Input) (a : Arch)
+    (h : getVelaConfig { inp with cli := none } = .ok a) :
+    ∃ m, memStage inp = .ok m ∧ a.arenaCacheSize = m.size := by
+  obtain ⟨s, m, _, hm, hf⟩ := getVelaConfig_ok h
+  exact ⟨m, hm, (finalize_ok hf).2.2.2.2.2.1⟩
+
+/-- the command-line size influences nothing but the size -/
+theorem cli_changes_only_size (inp : Input) (c1 c2 : Option Int) (a1 a2 : Arch)
+    (h1 : getVelaConfig { inp with cli := c1 } = .ok a1) (h2 : getVelaConfig { inp with cli := c2 } = .ok a2) :
+    { a1 with arenaCacheSize := 0 } = { a2 with arenaCacheSize := 0 } := by
+  obtain ⟨s1, m1, hs1, hm1, hf1⟩ := getVelaConfig_ok h1
+  obtain ⟨s2, m2, hs2, hm2, hf2⟩ := getVelaConfig_ok h2
+  have es : s1 = s2 := by
+    have : sysStage { inp with cli := c1 } = sysStage { inp with cli := c2 } := rfl
+    rw [this, hs2] at hs1; cases hs1; rfl
+  have em : m1 = m2 := by
+    have : memStage { inp with cli := c1 } = memStage { inp with cli := c2 } := rfl
+    rw [this, hm2] at hm1; cases hm1; rfl
+  subst es em
+  simp only [finalize] at hf1 hf2
+  obtain ⟨_, _, _, _, _, e1⟩ := checkArch_ok hf1
+  obtain ⟨_, _, _, _, _, e2⟩ := checkArch_ok hf2
+  rw [e1, e2]
+
+/-! ## 4. Rejections: an error, never a silent default -/
+
+/-- **rejects (unknown system configuration).**  A name other than `internal-default` that no given file
+    defines — or no file at all — is an error. -/
+theorem rejects_unknown_system_config (inp : Input) (hname : (inp.systemConfig == defaultName) = false)
+    (hno : ∀ ini, inp.ini = some ini → ini.hasSection ("System_Config." ++ inp.systemConfig) = false) :
+    getVelaConfig inp = .error .cliConfig ∨ getVelaConfig inp = .error .cliSystemConfig := by
+  cases hini : inp.ini with
+  | none =>
+    left
+    apply getVelaConfig_sys_error
+    simp [sysStage, hini, hname]
+  | some ini =>
+    right
+    apply getVelaConfig_sys_error
+    simp [sysStage, hini, hno ini hini, hname]
+
+/-- **rejects (unknown memory mode).** -/
+theorem rejects_unknown_memory_mode (inp : Input) (hname : (inp.memoryMode == defaultName) = false)
+    (hno : ∀ ini, inp.ini = some ini → ini.hasSection ("Memory_Mode." ++ inp.memoryMode) = false) :
+    ∃ e, getVelaConfig inp = .error e := by
+  cases hs : sysStage inp with
+  | error e => exact ⟨e, getVelaConfig_sys_error hs⟩
+  | ok s =>
+    cases hini : inp.ini with
+    | none => exact ⟨.cliConfig, getVelaConfig_mem_error hs (by simp [memStage, hini, hname])⟩
+    | some ini => exact ⟨.cliMemoryMode, getVelaConfig_mem_error hs (by simp [memStage, hini, hno ini hini, hname])⟩
+
+/-- **rejects (bad inheritance).**  Whenever the documented chain rule rejects the selected system
+    configuration section — a parent that is not in the files, a section naming itself (at any depth), a
+    cycle — resolution ends in an error, whatever else the sections define. -/
+theorem rejects_bad_system_chain (inp : Input) (ini : Ini) (hini : inp.ini = some ini)
+    (hsec : ini.hasSection ("System_Config." ++ inp.systemConfig) = true)
+    (hbad : chain ini (fuelFor ini) ("System_Config." ++ inp.systemConfig) = none) :
+    ∃ e, getVelaConfig inp = .error e := by
+  have h := readConfig_eq_chain ini "core_clock" (fuelFor ini) ("System_Config." ++ inp.systemConfig)
+  rw [hbad] at h
+  cases hr : readConfig ini (fuelFor ini) ("System_Config." ++ inp.systemConfig) "core_clock" with
+  | ok r => rw [hr] at h; simp [Except.toOption] at h
+  | error e =>
+    refine ⟨e, getVelaConfig_sys_error ?_⟩
+    simp [sysStage, hini, hsec, sysFromFile, hr, bind, Except.bind]
+
+theorem rejects_bad_memory_chain (inp : Input) (ini : Ini) (hini : inp.ini = some ini)
+    (hsec : ini.hasSection ("Memory_Mode." ++ inp.memoryMode) = true)
+    (hbad : chain ini (fuelFor ini) ("Memory_Mode." ++ inp.memoryMode) = none) :
+    ∃ e, getVelaConfig inp = .error e := by
+  cases hs : sysStage inp with
+  | error e => exact ⟨e, getVelaConfig_sys_error hs⟩
+  | ok s =>
+    have h := readConfig_eq_chain ini "const_mem_area" (fuelFor ini) ("Memory_Mode." ++ inp.memoryMode)
+    rw [hbad] at h
+    cases hr : readConfig ini (fuelFor ini) ("Memory_Mode." ++ inp.memoryMode) "const_mem_area" with
+    | ok r => rw [hr] at h; simp [Except.toOption] at h
+    | error e =>
+      refine ⟨e, getVelaConfig_mem_error hs ?_⟩
+      simp [memStage, hini, hsec, memFromFile, hr, bind, Except.bind]
+
+/-- **rejects (self-inheritance)**, the documented special case: the selected section names itself -/
+theorem rejects_self_inherit (inp : Input) (ini : Ini) (o : Section) (hini : inp.ini = some ini)
+    (hsec : ini.lookup ("System_Config." ++ inp.systemConfig) = some o)
+    (hself : o.lookup "inherit" = some ("System_Config." ++ inp.systemConfig)) :
+    getVelaConfig inp = .error .selfInherit := by
+  apply getVelaConfig_sys_error
+  have hr := readConfig_self_inherit ini ini.length _ "core_clock" o hsec hself
+  have hs : ini.hasSection ("System_Config." ++ inp.systemConfig) = true := by simp [Ini.hasSection, hsec]
+  simp only [sysStage, hini, hs, if_true, sysFromFile, fuelFor, hr, bind, Except.bind]
+
+/-- **rejects (illegal memory-area mapping, out-of-range size)** as soundness of acceptance: whatever is
+    accepted has its constants in Dram/OnChipFlash/OffChipFlash, its arena in Sram/Dram, its cache in Sram,
+    each being the area of the port the memory mode assigns, and `0 ≤ size ≤ max_address_offset`. -/
+theorem accepted_is_legal (inp : Input) (a : Arch) (h : getVelaConfig inp = .ok a) :
+    (a.permanent = .dram ∨ a.permanent = .onChipFlash ∨ a.permanent = .offChipFlash) ∧
+    (a.featureMap = .sram ∨ a.featureMap = .dram) ∧ a.fast = .sram ∧
+    a.permanent = portArea a.axi0 a.axi1 a.constPort ∧
+    a.featureMap = portArea a.axi0 a.axi1 a.arenaPort ∧
+    a.fast = portArea a.axi0 a.axi1 a.cachePort ∧
+    0 ≤ a.arenaCacheSize ∧ a.arenaCacheSize ≤ (inp.maxAddr : Int) := by
+  obtain ⟨s, m, _, _, hf⟩ := getVelaConfig_ok h
+  obtain ⟨h1, h2, h3, h4, h5, _, h7, h8, h9, _⟩ := finalize_ok hf
+  refine ⟨?_, ?_, ?_, h7, h8, h9, h4, h5⟩
+  · revert h1; cases a.permanent <;> simp [legalConstArea]
+  · revert h2; cases a.featureMap <;> simp [legalArenaArea]
+  · revert h3; cases a.fast <;> simp [legalCacheArea]
+
+/-- consequence: an accepted configuration has one AXI port on Sram and the other on one of the three
+    documented non-Sram memories — none of `Unknown`, `Shram`, `Size` survives -/
+theorem accepted_ports_documented (inp : Input) (a : Arch) (h : getVelaConfig inp = .ok a) :
+    (a.axi0 = .sram ∧ (a.axi1 = .dram ∨ a.axi1 = .onChipFlash ∨ a.axi1 = .offChipFlash)) ∨
+    (a.axi1 = .sram ∧ (a.axi0 = .dram ∨ a.axi0 = .onChipFlash ∨ a.axi0 = .offChipFlash)) := by
+  obtain ⟨h1, _, h3, h4, _, h6, _, _⟩ := accepted_is_legal inp a h
+  rw [h4] at h1
+  rw [h6] at h3
+  revert h1 h3
+  cases a.constPort <;> cases a.cachePort <;> simp only [portArea] <;> intro h1 h3 <;> simp_all
+
+/-- the individual diagnostics, in the order the code raises them -/
+theorem rejects_illegal_const (maxAddr : Nat) (s : SysCfg) (m : MemCfg) (size : Int)
+    (h : legalConstArea (portArea s.axi0 s.axi1 m.constPort) = false) :
+    checkArch maxAddr s m size = .error .cfgConst := by
+  simp [checkArch, h]
+
+theorem rejects_illegal_arena (maxAddr : Nat) (s : SysCfg) (m : MemCfg) (size : Int)
+    (hc : legalConstArea (portArea s.axi0 s.axi1 m.constPort) = true)
+    (h : legalArenaArea (portArea s.axi0 s.axi1 m.arenaPort) = false) :
+    checkArch maxAddr s m size = .error .cfgArena := by
+  simp [checkArch, hc, h]
+
+theorem rejects_illegal_cache (maxAddr : Nat) (s : SysCfg) (m : MemCfg) (size : Int)
+    (hc : legalConstArea (portArea s.axi0 s.axi1 m.constPort) = true)
+    (ha : legalArenaArea (portArea s.axi0 s.axi1 m.arenaPort) = true)
+    (h : legalCacheArea (portArea s.axi0 s.axi1 m.cachePort) = false) :
+    checkArch maxAddr s m size = .error .cfgCache := by
+  simp [checkArch, hc, ha, h]
+
+/-- **rejects (out-of-range size)**: with legal areas, a negative size and a size above the maximum
+    address offset are errors — from the file and from the command line alike (`size` is whichever was chosen) -/
+theorem rejects_out_of_range_size (maxAddr : Nat) (s : SysCfg) (m : MemCfg) (size : Int)
+    (hc : legalConstArea (portArea s.axi0 s.axi1 m.constPort) = true)
+    (ha : legalArenaArea (portArea s.axi0 s.axi1 m.arenaPort) = true)
+    (hk : legalCacheArea (portArea s.axi0 s.axi1 m.cachePort) = true) :
+    (size < 0 → checkArch maxAddr s m size = .error .cfgSizeNeg) ∧
+    (size > (maxAddr : Int) → checkArch maxAddr s m size = .error .cfgSizeBig) := by
+  constructor
+  · intro h; simp [checkArch, hc, ha, hk, h]
+  · intro h
+    have h0 : ¬ size < 0 := by omega
+    simp [checkArch, hc, ha, hk, h, h0]
+
+/-- malformed values are errors too: a number that does not parse, a port/area name that is not a member -/
+theorem rejects_malformed_value {α : Type} (v : String) (d : α) (p : String → Option α) (e : Err) (h : p v = none) :
+    fieldOr (some v) d p e = .error e := by
+  simp [fieldOr, h]
 
 end VelaVerif.Props.C18
